@@ -33,7 +33,8 @@ SCAL_RE = re.compile(r"::(?:Container|SparseLayout)<.*>::_scalar_index$")
 FLAG_RE = re.compile(r"::Container<.*>::_foreign_memory$")
 POOL = "FEAT::MemoryPool::"
 
-VEC_READS = {"size", "empty", "begin", "end", "cbegin", "cend", "capacity", "data", "max_size"}
+VEC_READS = {"size", "empty", "begin", "end", "cbegin", "cend", "capacity", "data", "max_size", "reserve", "shrink_to_fit"}
+PUSH = ("push_back", "emplace_back")
 VEC_SLOT = {"at", "back", "front", "operator[]"}
 
 
@@ -406,6 +407,15 @@ def join_state(a, b):
 L0 = ("0", 0)
 
 
+def add_len(a, b):
+    """sum of two symbolic lengths (base, offset); bases are '+'-joined sorted symbol lists"""
+    if a[0] == "0":
+        return (b[0], a[1] + b[1])
+    if b[0] == "0":
+        return (a[0], a[1] + b[1])
+    return ("+".join(sorted(a[0].split("+") + b[0].split("+"))), a[1] + b[1])
+
+
 def len_opaque(l):
     return l[0] == "U" or l[0].startswith("e:")
 
@@ -631,6 +641,9 @@ class Interp:
 
     def ctor_init(self, i, st):
         init = i.get("init")
+        if i.get("delegating") and init is not None and init.get("k") in ("Construct", "TempObj") and self.fam.is_family_type(init.get("ccls", "")):
+            # `X(a, b, v) : X(a, b) { ... }`: the target constructor establishes the object; the body continues from its exit state
+            return self.expr(init, st, base_init=True)
         if i.get("base"):
             if init is not None and (str(init.get("ccls", "")).startswith("FEAT::LAFEM::Container<") or self.fam.is_family_type(init.get("ccls", ""))):
                 st = self.expr(init, st, base_init=True)
@@ -844,6 +857,8 @@ class Interp:
     def has_events(self, n):
         for x in walk(n):
             if vec_member(x) or (is_call(x) and str(x.get("callee", "")).startswith(POOL + ("release_memory")) or str(x.get("callee", "")).startswith(POOL + "increase_memory")):
+                return True
+            if x.get("k") in ("Call", "MCall") and len(x.get("a") or []) == 1 and short(x.get("ccls", "")) in self.fam.classes and self.depth < 3 and self.pool_callee(x) is not None:
                 return True
         return False
 
@@ -1283,16 +1298,16 @@ class Interp:
         pre_dec = None
         if body is not None and body.get("k") == "Block" and len(body.get("s", [])) == 2:
             s0, s1 = body["s"]
-            if s0.get("k") == "Decl" and len(s0.get("vars", [])) == 1 and s0["vars"][0].get("init") is not None and s1.get("k") == "Call":
+            if s0.get("k") == "Decl" and len(s0.get("vars", [])) == 1 and s0["vars"][0].get("init") is not None and s1.get("k") in ("Call", "MCall"):
                 named[s0["vars"][0]["d"]] = s0["vars"][0]["init"]
                 body = s1
-            elif s0.get("k") == "Un" and s0.get("op") == "--" and unwrap(s0["e"]).get("k") == "Ref" and s1.get("k") == "Call" and n.get("inc") is None:
+            elif s0.get("k") == "Un" and s0.get("op") == "--" and unwrap(s0["e"]).get("k") == "Ref" and s1.get("k") in ("Call", "MCall") and n.get("inc") is None:
                 pre_dec = unwrap(s0["e"])["d"]
                 body = s1
-        if body is None or body.get("k") != "Call":
+        if body is None or body.get("k") not in ("Call", "MCall"):
             return None
-        cal = body.get("callee", "")
-        if cal not in (POOL + "release_memory", POOL + "increase_memory") or len(body.get("a", [])) != 1:
+        cal = self.pool_callee(body)
+        if cal is None or len(body.get("a", [])) != 1:
             return None
         what = "REL" if cal.endswith("release_memory") else "INC"
         arg = unwrap(body["a"][0])
@@ -1415,6 +1430,33 @@ class Interp:
             return None
         return what, b, kind, rng_ok, body
 
+    def pool_callee(self, call, depth=0):
+        """POOL::release_memory / POOL::increase_memory if the call is one of them or a thin wrapper around one
+        (`static void _release(DT_* p) { MemoryPool::release_memory(p); }`), else None"""
+        cal = call.get("callee", "")
+        if cal in (POOL + "release_memory", POOL + "increase_memory"):
+            return cal
+        if call.get("k") not in ("Call", "MCall") or len(call.get("a") or []) != 1 or depth > 1 or str(cal).startswith("std::"):
+            return None
+        g = self.any_callee(call)
+        if g is None or g.body is None or len(g.params) != 1 or g.d.get("virtual"):
+            return None
+        body = g.body
+        while body is not None and body.get("k") == "Block" and len([x for x in body.get("s", []) if x.get("k") != "Null_"]) == 1:
+            body = [x for x in body["s"] if x.get("k") != "Null_"][0]
+        if body is None or body.get("k") not in ("Call", "MCall") or len(body.get("a") or []) != 1:
+            return None
+        a0 = unwrap(body["a"][0])
+        if a0.get("k") != "Ref" or a0.get("d") != g.params[0]["d"]:
+            return None
+        saved = dict(_ALIAS)
+        try:
+            sub = Interp(self.fam, g, depth=self.depth + 1)
+            return sub.pool_callee(body, depth + 1)
+        finally:
+            _ALIAS.clear()
+            _ALIAS.update(saved)
+
     def for_each_pool(self, n):
         """`std::for_each(O.V.begin(), O.V.end(), [](T* p){ MemoryPool::release|increase_memory(p); })` - the algorithm form
         of the whole-vector loop.  -> (what, obj-expr, kind, range-ok) or None"""
@@ -1430,7 +1472,7 @@ class Interp:
         body = lam["body"]
         while body is not None and body.get("k") == "Block" and len(body.get("s", [])) == 1:
             body = body["s"][0]
-        if body is None or body.get("k") != "Call" or body.get("callee") not in (POOL + "release_memory", POOL + "increase_memory") or len(body.get("a", [])) != 1:
+        if body is None or body.get("k") not in ("Call", "MCall") or self.pool_callee(body) is None or len(body.get("a", [])) != 1:
             return None
         arg = unwrap(body["a"][0])
         own_params = {p_["d"] for p_ in self.fn.params}
@@ -1438,7 +1480,7 @@ class Interp:
             return None
         k0, b0 = vec_member(a0["obj"])
         k1, b1 = vec_member(a1["obj"])
-        return ("REL" if body["callee"].endswith("release_memory") else "INC"), b0, k0, (k0 == k1 and obj_id(b0) == obj_id(b1))
+        return ("REL" if self.pool_callee(body).endswith("release_memory") else "INC"), b0, k0, (k0 == k1 and obj_id(b0) == obj_id(b1))
 
     def vec_base_ptr(self, e):
         """(kind, base) if e points at element 0 of a tracked pointer vector: V.data(), &V[0], &V.at(0), &V.front(), &*V.begin()"""
@@ -1571,16 +1613,22 @@ class Interp:
                         key = (obj_id(vm[1]), vm[0], comp)
                         c = counts.setdefault(key, [0, 0])
                         c[0] += 1
-                        if x.get("n") == "push_back" and any(x is t for t in top):
+                        if x.get("n") in PUSH and len(x.get("a") or []) == 1 and any(x is t for t in top):
                             c[1] += 1
             if x.get("k") == "OpCall" and x.get("op") == "=" and x.get("a") and (vec_member(x["a"][0]) or size_member(x["a"][0])):
                 vm = vec_member(x["a"][0]) or size_member(x["a"][0])
                 if obj_id(vm[1]):
                     counts.setdefault((obj_id(vm[1]), vm[0], 0 if vec_member(x["a"][0]) else 1), [0, 0])[0] += 5
         for (o, kind, comp), (total, toplevel) in counts.items():
-            if total == 1 and toplevel == 1 and ("len", o, kind) in st and ("len", o, kind) in res and st[("len", o, kind)][comp] == L0:
-                res = dict(res)
-                self.set_len(res, o, kind, comp, trip)
+            if total == 1 and toplevel == 1 and ("len", o, kind) in st and ("len", o, kind) in res:
+                before = st[("len", o, kind)][comp]
+                if before == L0:
+                    res = dict(res)
+                    self.set_len(res, o, kind, comp, trip)
+                elif not len_opaque(before) and not len_opaque(trip) and not before[0].startswith(("ne:", "j:")):
+                    # a second counting loop appends its trip count to what the vector already held
+                    res = dict(res)
+                    self.set_len(res, o, kind, comp, add_len(before, trip))
         lv = n["init"]["vars"][0]
         for x in walk(body):
             if is_call(x) and x.get("callee") in (POOL + "copy", POOL + "convert") and len(x.get("a", [])) >= 2:
@@ -1863,7 +1911,8 @@ class Interp:
                         "std::for_each over [begin, end) of two different vectors" if not rng_ok else "loop ranges over the whole vector", n.get("l"))
                 self.pool_event(what, o, kind, st, n.get("l"))
                 return st
-        if cal in (POOL + "release_memory", POOL + "increase_memory"):
+        if cal in (POOL + "release_memory", POOL + "increase_memory") or (n.get("k") in ("Call", "MCall") and len(n.get("a") or []) == 1 and not cal.startswith(POOL)
+                                                                           and "*" in (self.fn.type((n.get("pt") or [None])[0]) or "") and self.pool_callee(n) is not None):
             return self.single_pool_call(n, st)
         if cal in (POOL + "copy", POOL + "convert") and len(n.get("a", [])) >= 2:
             self.content_copy(n, st)
@@ -1900,10 +1949,12 @@ class Interp:
                 return st
             if m in VEC_SLOT:
                 return st          # the slot's fate is decided at the parent (slot_use, called from there)
-            if m == "push_back":
+            if m in PUSH:
                 return st          # handled when the MCall itself is visited (args first)
             if m in ("clear", "assign", "swap"):
                 return st
+            if m == "insert" and len(p.get("a") or []) == 3:
+                return st          # decided at the MCall (append of another container's vector)
             raise Unknown("unmodelled std::vector operation %s on %s at line %s" % (m, name, line))
         if pk == "Var" and p.get("ref"):
             return st          # reference alias; uses of the alias are resolved to this member
@@ -1960,7 +2011,7 @@ class Interp:
     def single_pool_call(self, n, st):
         """release/increase of one pointer outside a whole-vector loop"""
         arg = unwrap(n["a"][0])
-        what = "REL" if n["callee"].endswith("release_memory") else "INC"
+        what = "REL" if self.pool_callee(n).endswith("release_memory") else "INC"
         slot = None
         if arg.get("k") == "MCall" and arg.get("n") in VEC_SLOT and vec_member(arg.get("obj")):
             slot = arg
@@ -2274,6 +2325,8 @@ def _event(self, n, st, base_init, decl_obj):
         kind, b = vec_member(n["obj"])
         o = obj_id(b)
         m = n.get("n")
+        if m == "emplace_back" and len(n.get("a") or []) == 1:
+            m = "push_back"
         if o is not None and m in ("push_back", "clear", "assign"):
             self.ensure(st, o, self.obj_type(b))
             name = "%s._%s" % (o.split("#")[0], kind)
@@ -2303,6 +2356,19 @@ def _event(self, n, st, base_init, decl_obj):
                     raise Unknown("source of %s.assign(...) at line %s: %s" % (name, n.get("l"), render(n)[:140]))
                 st[(o, kind)] = VS("UNCOUNTED", None, {"copy:" + src})
                 return st
+        if o is not None and m == "insert" and len(n.get("a") or []) == 3:
+            # V.insert(V.end(), X.begin(), X.end()): appends the like-named vector of another container
+            at_end = any(x.get("k") == "MCall" and x.get("n") in ("end", "cend") and vec_member(x.get("obj")) and vec_member(x["obj"])[0] == kind
+                         and obj_id(vec_member(x["obj"])[1]) == o for x in walk(n["a"][0]))
+            src = self.src_of_range(n["a"][1:], kind)
+            self.ensure(st, o, self.obj_type(b))
+            vs = st[(o, kind)]
+            name = "%s._%s" % (o.split("#")[0], kind)
+            if not at_end or src is None or vs.own not in ("EMPTY", "UNCOUNTED"):
+                raise Unknown("unmodelled %s.insert(...) at line %s: %s" % (name, n.get("l"), render(n)[:140]))
+            self.ob("pointer-origin", "%s/push-shared" % name, True, "ok", n.get("l"))
+            st[(o, kind)] = VS("UNCOUNTED", None, vs.origin | {"copy:" + src})
+            return st
         if o is not None and m in VEC_SLOT and self.is_written(n):
             # V.at(k) = p
             self.ensure(st, o, self.obj_type(b))
@@ -2322,6 +2388,7 @@ def _event(self, n, st, base_init, decl_obj):
                 pend = dict(st.get(("pend", o, kind)) or ())
                 pend[sk] = (_norm_extent(self, e["a"][0]), e.get("i", 0), n.get("l"))
                 st[("pend", o, kind)] = tuple(sorted(pend.items()))
+                self.__dict__.setdefault("_pend_nodes", {})[(o, kind, sk, e.get("i", 0))] = e["a"][0]
             return st
         return st
     if k == "OpCall" and n.get("op") == "=" and n.get("a") and vec_member(n["a"][0]):
@@ -2498,7 +2565,7 @@ def _event_len(self, n, st, base_init, decl_obj):
                     raise Unknown("size vector of an unnamed object modified at line %s" % n.get("l"))
                 break
             self.ensure(st, o, self.obj_type(b))
-            if m == "push_back":
+            if m in PUSH and len(n.get("a") or []) == 1:
                 cur = st[("len", o, kind)][comp]
                 self.set_len(st, o, kind, comp, (cur[0], cur[1] + 1))
                 self.touched = True
@@ -2508,6 +2575,12 @@ def _event_len(self, n, st, base_init, decl_obj):
             elif m == "assign":
                 src = _range_src(n.get("a") or [])
                 self.set_len(st, o, kind, comp, self.len_of_vec(src, st) if src is not None else ("e:" + render(n)[:40], 0))
+                self.touched = True
+            elif m == "insert" and len(n.get("a") or []) == 3:
+                src = _range_src((n.get("a") or [])[1:])
+                cur = st[("len", o, kind)][comp]
+                add = self.len_of_vec(src, st) if src is not None else ("U", 0)
+                self.set_len(st, o, kind, comp, add_len(cur, add) if not len_opaque(cur) and not len_opaque(add) else ("U", 0))
                 self.touched = True
             elif comp == 1 and m not in VEC_READS | VEC_SLOT:
                 raise Unknown("unmodelled std::vector operation %s on %s._%s_size at line %s" % (m, o.split("#")[0], kind, n.get("l")))
@@ -2660,7 +2733,8 @@ def _event_idx(self, n, st, base_init, decl_obj):
             tgt = _idx_expr(self, ptr)
             if tgt is not None:
                 _idx_write(self, tgt, st, "store `%s`" % render(n)[:70], n)
-    elif is_call(n) and n.get("callee") not in (POOL + "release_memory", POOL + "increase_memory", POOL + "allocated_size"):
+    elif is_call(n) and n.get("callee") not in (POOL + "release_memory", POOL + "increase_memory", POOL + "allocated_size") and \
+            not (n.get("k") in ("Call", "MCall") and len(n.get("a") or []) == 1 and short(n.get("ccls", "")) in self.fam.classes and self.pool_callee(n) is not None):
         pts = n.get("pt") or []
         cal = str(n.get("callee", ""))
         for i, a in enumerate(n.get("a") or []):
@@ -2672,8 +2746,13 @@ def _event_idx(self, n, st, base_init, decl_obj):
                 if sl is not None and cal not in (POOL + "copy", POOL + "convert"):
                     # the array may be filled (or, for callees we do not know, even released) there
                     self.opaque_fills.add((sl[0], kd))
+                    fam_callee = short(n.get("ccls", "")) in self.fam.classes
+                    if fam_callee and self.pool_callee(n) is None:
+                        g_ = self.any_callee(n)
+                        if g_ is None or any(is_call(y) and str(y.get("callee", "")) in (POOL + "release_memory", POOL + "increase_memory") for y in walk(g_.body or {})):
+                            fam_callee = False          # may release / count the array: not a mere reader / filler
                     if not re.match(r"^(FEAT::MemoryPool::|memcpy$|memset$|memmove$|std::(copy|fill|memcpy|memset|memmove|transform|generate|iota|sort)|FEAT::Pack::|FEAT::LAFEM::Arch::)", cal) \
-                            and short(n.get("ccls", "")) not in self.fam.classes:
+                            and not fam_callee:
                         self.taint(sl[0], "an array of %s._%s is passed to %s (line %s), which the check does not model" % (sl[0].split("#")[0], kd, cal or "a call", n.get("l")), (kd,))
             tgt = _idx_expr(self, a)
             if tgt is not None:
@@ -2725,6 +2804,20 @@ def _event_sizeslot(self, n, st, base_init, decl_obj):
                             "undecided: %s is modified between the allocation and the recorded extent" % mod, n.get("l"))
                 else:
                     ok = want == got
+                    if not ok:
+                        # two spellings of one quantity (accessor vs raw slot, commuted sum)? compare as polynomials
+                        node = self.__dict__.get("_pend_nodes", {}).get((o, kind, sk, at))
+                        v = semantic_extent_verdict(self, node, n["rhs"], n.get("i", 0)) if node is not None else "ne"
+                        if v == "eq":
+                            ok = True
+                        elif v == "unknown":
+                            self.ob("size-pairing", "%s/slot%s-reseat" % (name, sk), True,
+                                    "undecided: slot %s of %s was re-seated to an array of %s entries; the size slot records %s (not comparable)" % (sk, name, want, got), n.get("l"))
+                            if pend:
+                                st[("pend", o, kind)] = tuple(sorted(pend.items()))
+                            else:
+                                st.pop(("pend", o, kind), None)
+                            return _event_idx(self, n, st, base_init, decl_obj)
                     self.ob("size-pairing", "%s/slot%s-reseat" % (name, sk), ok,
                             "slot %s of %s was re-seated (line %s) to an array of %s entries; the size slot records %s%s" % (
                                 sk, name, line0, want, got, "" if ok else ": clone/convert/serialize size their copies from the recorded extent, so a copy gets a shorter array than "
@@ -2942,13 +3035,94 @@ def poly_verdict(p, q):
     atoms = set()
     for m in d:
         atoms.update(m)
+    if any(len(m) > 1 for m in d):
+        # a product of size quantities may equal another one (size() == rows() * columns()): not decidable from the names
+        return "unknown"
     recv = set()
     for a in atoms:
+        if re.match(r"^slot\d+$", a):
+            recv.add("this")          # a slot of this object's _scalar_index (an inlined accessor of this)
+            continue
         mm = re.match(r"^([\w>-]+(?:#\d+)?)\.[\w<>:, ]+\(\)$", a)
         if not mm:
             return "unknown"
         recv.add(mm.group(1))
     return "ne" if len(recv) == 1 else "unknown"
+
+
+def ctor_slot_values(it, before):
+    """{'slotK': polynomial} of the values a constructor has stored in _scalar_index by the time statement id `before`
+    executes: slot 0 from the Container(size_in) base initialiser, the others from the unconditional top-level
+    `_scalar_index.push_back(E)` / `_scalar_index.at(k) = E` statements of the body.  None if the list is filled in any
+    other way (then nothing is known)."""
+    fn = it.fn
+    if not fn.d.get("ctor") or fn.body is None:
+        return None
+    vals, nxt = {}, 0
+    for i in fn.d.get("inits") or []:
+        init = i.get("init") or {}
+        if i.get("base") and str(init.get("ccls", "")).startswith("FEAT::LAFEM::Container<"):
+            if init.get("pn") == ["size_in"] and init.get("a"):
+                vals["slot0"] = poly(it, init["a"][0])
+                nxt = 1
+            else:
+                return None
+    if nxt == 0:
+        return None
+    top = fn.body.get("s", []) if fn.body.get("k") == "Block" else [fn.body]
+    top_ids = {id(x) for x in top}
+    for x in fn.nodes():
+        tgt = None
+        if x.get("k") == "MCall" and x.get("obj") is not None and unwrap(x["obj"]).get("k") == "Member" and SCAL_RE.search(unwrap(x["obj"]).get("qn", "")):
+            if obj_id(unwrap(x["obj"]).get("b")) != "this" or x.get("n") in VEC_READS | VEC_SLOT:
+                continue
+            if x.get("n") not in PUSH or id(x) not in top_ids or len(x.get("a") or []) != 1:
+                return None
+            if x.get("i", 0) < before:
+                vals["slot%d" % nxt] = poly(it, x["a"][0])
+            nxt += 1
+        elif x.get("k") == "Assign" and unwrap(x["lhs"]).get("k") == "MCall" and unwrap(x["lhs"]).get("n") in VEC_SLOT:
+            l = unwrap(x["lhs"])
+            ob = unwrap(l.get("obj") or {})
+            if ob.get("k") == "Member" and SCAL_RE.search(ob.get("qn", "")) and obj_id(ob.get("b")) == "this":
+                if x.get("op") != "=" or id(x) not in top_ids or not l.get("a") or unwrap(l["a"][0]).get("k") != "Int":
+                    return None
+                k = "slot%s" % unwrap(l["a"][0])["v"]
+                if x.get("i", 0) < before:
+                    vals[k] = poly(it, x["rhs"])
+                else:
+                    vals.pop(k, None)          # overwritten later: the value at `before` is the earlier one, keep it simple
+        elif x.get("k") == "OpCall" and x.get("op") == "=" and x.get("a") and unwrap(x["a"][0]).get("k") == "Member" and SCAL_RE.search(unwrap(x["a"][0]).get("qn", "")) \
+                and obj_id(unwrap(x["a"][0]).get("b")) == "this":
+            return None
+    return vals
+
+
+def semantic_extent_verdict(it, e1, e2, at):
+    """'eq' | 'ne' | 'unknown' for two extent expressions of one function, compared as polynomials after inlining the
+    class's own accessors (size() -> slot 0, rows() -> slot 1, size<pod>() -> slot 0 * BlockSize, ...) and - in a
+    constructor - the values the scalar slots were given before statement id `at`"""
+    it.inline_accessors = True
+    saved = dict(_ALIAS)
+    try:
+        p, q = poly(it, e1), poly(it, e2)
+        sv = ctor_slot_values(it, at)
+    finally:
+        it.inline_accessors = False
+        _ALIAS.clear()
+        _ALIAS.update(saved)
+    v = poly_verdict(p, q)
+    if v == "eq" or not sv:
+        return v
+    for k, val in sv.items():
+        p, q = psubst(p, k, val), psubst(q, k, val)
+    v = poly_verdict(p, q)
+    if v == "unknown":
+        # two different polynomials over the constructor's own (independent) integer parameters differ for some arguments
+        atoms = {a for m in psub(p, q) for a in m}
+        if atoms and atoms <= {p_["n"] for p_ in it.fn.params if INT_T.match(it.fn.type(p_["t"]) or "")}:
+            return "ne"
+    return v
 
 
 def pair_pushes(fam, fn):
@@ -2970,7 +3144,7 @@ def pair_pushes(fam, fn):
     def pushes_in(block_stmts):
         seq = []
         for s in block_stmts:
-            if s.get("k") == "MCall" and s.get("n") == "push_back" and s.get("obj", {}).get("k") == "Member":
+            if s.get("k") == "MCall" and s.get("n") in PUSH and len(s.get("a") or []) == 1 and s.get("obj", {}).get("k") == "Member":
                 q = s["obj"].get("qn", "")
                 mv, ms = VEC_RE.search(q), SIZE_RE.search(q)
                 if mv or ms:
@@ -3017,6 +3191,9 @@ def pair_pushes(fam, fn):
                     if org == "alloc":
                         ext = _norm_extent(it, e["a"][0]) if e.get("a") else "?"
                         v = "eq" if ext == sz else (poly_verdict(poly(it, e["a"][0]), poly(it, s[3]["a"][0])) if e.get("a") else "unknown")
+                        if v != "eq" and e.get("a"):
+                            # two spellings of one quantity (size() vs rows() * columns(), a hoisted rows_in * columns_in)?
+                            v = semantic_extent_verdict(it, e["a"][0], s[3]["a"][0], min(p[3].get("i", 0), s[3].get("i", 0)))
                         det = "array %d of %s allocated with extent %s, recorded extent %s" % (i, name, ext, sz)
                         if v == "unknown":
                             obs.append(("%s/%d" % (name, i), True, "undecided: " + det + " (quantities of different objects, not comparable)", line, True))
@@ -3070,7 +3247,7 @@ def pair_pushes(fam, fn):
         visit(fn.body)
     # pushes we did not see as plain statements (nested in expressions) -> unknown
     for n in fn.nodes():
-        if n.get("k") == "MCall" and n.get("n") == "push_back" and n.get("obj", {}).get("k") == "Member":
+        if n.get("k") == "MCall" and n.get("n") in PUSH and n.get("obj", {}).get("k") == "Member":
             q = n["obj"].get("qn", "")
             if VEC_RE.search(q) and id(n) not in seen:
                 unknown.append("push_back into a pointer vector in an unrecognised position at line %s" % n.get("l"))
@@ -3151,7 +3328,7 @@ def show_len(l):
     b, o = l
     if b == "0":
         return str(o)
-    b = {"U": "an unknown number of"}.get(b, "len(%s)" % b.split(":", 1)[-1])
+    b = {"U": "an unknown number of"}.get(b, " + ".join("len(%s)" % t.split(":", 1)[-1] for t in b.split("+")))
     return b if o == 0 else "%s%+d" % (b, o)
 
 
@@ -3354,11 +3531,14 @@ def cross_clone_rules(ck, fam, seen_fail, rule="C02.clone-cross-type"):
                 k = n.get("k")
                 if k == "Block":
                     for s_ in n.get("s", []):
-                        if not ex(s_):
-                            return False
+                        r_ = ex(s_)
+                        if r_ is not True:
+                            return r_          # False: returned; "brk": left the enclosing switch
                     return True
                 if k == "Null_":
                     return True
+                if k == "Break":
+                    return "brk"
                 if k == "Decl":
                     for v in n.get("vars", []):
                         t = short(fn.type(v.get("t")))
@@ -3391,6 +3571,39 @@ def cross_clone_rules(ck, fam, seen_fail, rule="C02.clone-cross-type"):
                     return False
                 if k == "Return":
                     return False
+                if k == "Switch":
+                    val = it.const_of(n["c"])
+                    if val is None:
+                        problems.append("switch(%s) not decided by clone_mode == %s" % (render(n["c"])[:60], mode))
+                        return False
+                    body = n.get("body") or {}
+                    flat, start, default_at = [], None, None
+                    for s_ in (body.get("s", []) if body.get("k") == "Block" else [body]):
+                        inner = s_
+                        while inner is not None and inner.get("k") in ("Case", "Default"):
+                            if inner.get("k") == "Default":
+                                default_at = len(flat)
+                            else:
+                                cv = it.const_of(inner.get("v") or {})
+                                if cv is None:
+                                    problems.append("case label %s not a constant" % render(inner.get("v") or {})[:40])
+                                    return False
+                                if cv == val and start is None:
+                                    start = len(flat)
+                            inner = inner.get("s")
+                        if inner is not None:
+                            flat.append(inner)
+                    if start is None:
+                        start = default_at
+                    if start is None:
+                        return True
+                    for s_ in flat[start:]:
+                        r_ = ex(s_)
+                        if r_ == "brk":
+                            return True
+                        if r_ is False:
+                            return False
+                    return True
                 if k == "MCall":
                     if call_effect(n):
                         return True
